@@ -110,7 +110,7 @@ def run_property(prop, tier, keep=False, only=None, jobs=16, write_evidence=True
                     known.append((key, text))
                 else:
                     violations.append(dict(unit=u.name, engine="verus", key=key, item=item, playback=None,
-                                           output=res.get("raw", "")[-6000:]))
+                                           output=res.get("raw", "")[-6000:], paired=u.paired))
 
     # ---------------- K-track
     if harnesses:
@@ -168,6 +168,14 @@ def run_property(prop, tier, keep=False, only=None, jobs=16, write_evidence=True
     for key, text in sorted(set(known)):
         print("KNOWN-FINDING: property=%s %s [%s]" % (prop, text, key))
     vlines = []
+    # a Verus failure has no counterexample of its own: borrow the replay of its paired Kani harness when that one
+    # failed too and its counterexample was confirmed on the real code
+    for v in violations:
+        if v["engine"] == "verus" and v.get("paired"):
+            for w in violations:
+                if w["engine"] != "verus" and v["paired"] in w["unit"] and (w.get("playback") or {}).get("confirmed"):
+                    v["playback"] = dict(w["playback"], borrowed_from=w["unit"])
+                    break
     for i, v in enumerate(violations):
         path = os.path.join(common.REPLAY_DIR, "%s-%s.json" % (prop, slug(v["key"])))
         pb = v.get("playback")
@@ -177,6 +185,7 @@ def run_property(prop, tier, keep=False, only=None, jobs=16, write_evidence=True
             failed_check={k: (re.sub(r"^/var/tmp/verif-scratch/[^/]+/repo/", "", x) if isinstance(x, str) else x)
                           for k, x in v["item"].items()},
             replayed_on_real_code=confirmed,
+            counterexample_from=(pb or {}).get("borrowed_from", v["unit"] if pb else None),
             concrete_playback_tests=(pb or {}).get("tests", []),
             playback_output=(pb or {}).get("output", ""),
             verifier_output=v.get("output", ""),
